@@ -7,6 +7,7 @@ import sys
 
 ENGINES = {
     "C06": "engines.c06",
+    "C09": "engines.c09",
     "C12": "engines.c12",
     "C13": "engines.c13",
 }
